@@ -249,6 +249,26 @@ def c16_oracle(full, io, b):
                 if val and val.startswith("L5:") and "%" in arg and _is_ip(arg.partition("%")[0]):
                     cls = "host-zone-injection"
                 out.append(fail(v, h, "raw_host", f"host argument {arg!r} accepted although {raw!r} is outside the reg-name grammar", cls))
+    # "encoding is idempotent": the string form of an accepted URL parses again, to the same raw host
+    for h, n in enumerate(v.cr):
+        f = full[n].split("\t")
+        if f[0] != "rt":
+            continue
+        src = int(f[2])
+        if not v.alive(src) or src in taint:
+            continue
+        a, sv = v.get(src, "raw_host"), v.get(src, "str")
+        if a is None or a.startswith("!") or sv is None or sv.startswith("!"):
+            continue
+        ad = None if a == "~" else dec(a)
+        if ad is None or "[" in ad or "]" in ad or ad == "":
+            continue          # no host / the malformed-bracket and empty-host families (listed for C03 / C09)
+        if not v.alive(h):
+            out.append(fail(v, src, "str", f"str(url) = {dec(sv)!r} (raw_host {ad!r}) is rejected when parsed again", "host-reparse"))
+            continue
+        c = v.get(h, "raw_host")
+        if c is not None and not c.startswith("!") and c != a:
+            out.append(fail(v, h, "raw_host", f"str(url) = {dec(sv)!r} parses back with raw_host {pretty_out(c)}, the URL had {pretty_out(a)}", "host-reparse", also=[v.n_of(src, "raw_host")]))
     return out
 
 
@@ -291,6 +311,14 @@ def c16_streams(rng, tier, budget):
             k = st2.hre(h)
             st2.obs_all(k, ["raw_host", "host"])
             st2.add("tag\thre\t%d\t%d" % (k, h))
+    # brackets in the USERINFO (they pass the bracket screen when they look like an IP-literal) in front of a host that is no IPv6 literal:
+    # whether the host gets brackets must be decided by the host part alone
+    for s0 in ["http://[::1]@Example.COM/", "http://u:[v1.x]@bücher.de/", "http://[a:b]@127.0.0.1/", "http://[::1]@[::2]/", "http://[v1.x]@h:81/p", "http://u:[::1]@[v1.y]/",
+               "http://[::1]:[::2]@example.com:8080/"]:
+        h = st2.new(s0)
+        st2.obs_all(h, C16_OBS)
+        st2.obs_all(st2.rt(h), ["raw_host", "str", "val"])
+        st2.obs_all(st2.pkl(h), ["raw_host", "host_subcomponent"])
     for v6 in ["::1", "2001:db8::1", "fe80::1%eth0", "FE80::1%Eth0", "1:2:3:4:5:6:7:8", "::ffff:1.2.3.4"]:
         for sc, dp in (("http", 80), ("https", 443), ("ws", 80), ("ftp", 21), ("x", None)):
             for ui in ("", "u@", "u:p@"):
